@@ -5,6 +5,7 @@ import (
 	"math/big"
 	"sort"
 	"strings"
+	"sync"
 
 	"github.com/oasisprotocol/curve25519-voi/curve"
 	"github.com/oasisprotocol/curve25519-voi/curve/scalar"
@@ -66,6 +67,9 @@ func histString(h []hop) string {
 	}
 	return strings.Join(p, "; ")
 }
+
+// setSources: the caller-owned source variable of every object that has been Set (see the set functions below).
+var setSources sync.Map
 
 const histMaxLive = 3
 
@@ -401,7 +405,12 @@ func (s *space) histories(c *mc.Ctx) {
 			return o
 		},
 		set: func(o interface{}, p int) {
-			arg := cp(ePts[p].P)
+			// every Set on one object goes through the SAME caller-owned source variable, overwritten in place before
+			// and scribbled over after the call (a caller that reuses one point variable for successive keys): a memo
+			// keyed by the identity of the source pointer must not survive a change of its contents
+			v, _ := setSources.LoadOrStore(o, new(curve.EdwardsPoint))
+			arg := v.(*curve.EdwardsPoint)
+			*arg = *cp(ePts[p].P)
 			o.(*curve.ExpandedEdwardsPoint).SetEdwardsPoint(arg)
 			scribble(arg)
 		},
@@ -426,7 +435,9 @@ func (s *space) histories(c *mc.Ctx) {
 			return o
 		},
 		set: func(o interface{}, p int) {
-			arg := rp(rPts[p].P)
+			v, _ := setSources.LoadOrStore(o, new(curve.RistrettoPoint))
+			arg := v.(*curve.RistrettoPoint)
+			*arg = *rp(rPts[p].P)
 			o.(*curve.ExpandedRistrettoPoint).SetRistrettoPoint(arg)
 			scribbleR(arg)
 		},
